@@ -67,7 +67,9 @@ def check(out, ctx):
         # probes: when XProbe occurs exactly once in the grammar (besides its declaration), at the start of a
         # memoized body, the hook itself must be invoked at most once per remaining-input length
         uses = re.findall(r"(?<![\w)])XProbe\b(?!;)", c.g.text)
-        if len(uses) == 1 and re.search(r"@memoize[^;=]*=\s*XProbe\b", c.g.text) and not c.g.meta["leftrec"]:
+        pm = re.search(r"^([^;=\n]*@memoize[^;=\n]*)=\s*XProbe\b", c.g.text, re.M)
+        # (the probe sits at the rule's entry offset only if the rule does not skip whitespace before it)
+        if len(uses) == 1 and pm and "@no_skip_ws" in pm.group(1) and not c.g.meta["leftrec"]:
             probed += 1
             pl = collections.Counter(x for x in c.impl.get("hlog", "").split(";") if x.startswith("6578745f70726f6265"))
             for x, k in pl.items():
